@@ -508,14 +508,19 @@ public:
          std::map<uint32, uint32> exp, got;
          for (auto & cp : conns) if ((cp)&&(cp->up)&&(!cp->hostile)) {uint32 cnt = 0; for (auto & sp : cp->serverSubs) if (match::PathMatch(sp.first, p)) cnt++; if (cnt) exp[cp->sid] = cnt;}
          for (ConstHashtableIterator<uint32, uint32> it(n.GetSubscribers()); it.HasData(); it++) {bool hostileSid = false; for (auto & cp : conns) if ((cp)&&(cp->hostile)&&(cp->up)&&(cp->sid == it.GetKey())) hostileSid = true; if (!hostileSid) got[it.GetKey()] = it.GetValue();}   // a hostile session's own subscriptions are not modelled
-         if (exp != got)
+         // Judged is WHO is marked on the node (that decides who is told about it), not the library's per-session reference counts: those are an implementation
+         // detail (a count that drifts shows up as a wrong presence as soon as one of the overlapping subscriptions goes away).  Counts are only printed.
+         bool differ = (exp.size() != got.size()); if (!differ) for (auto & e : exp) if (got.find(e.first) == got.end()) differ = true;
+         if ((!differ)&&(exp != got)) st.inc("p.mark_reference_count_differs_from_subscription_count");
+         if (differ)
          {
             std::string d = std::string(when) + ": subscriber marks of node " + p + " are {"; for (auto & e : got) d += U(e.first) + ":" + U(e.second) + " ";
             d += "} but the sessions' current subscriptions imply {"; for (auto & e : exp) d += U(e.first) + ":" + U(e.second) + " "; d += "}; last command: " + lastCmdDesc;
             for (auto & e : got) {bool live = false; for (auto & cp : conns) if ((cp)&&(cp->up)&&(cp->sid == e.first)) live = true; if (!live) Fail("marks_of_departed_session", d);}
             // narrow trigger descriptor for finding F14: a session whose marks differ holds two parameter names that normalise to one path
-            for (auto & cp : conns) if ((cp)&&(cp->up)&&(exp[cp->sid] != got[cp->sid])&&(cp->everEmptyClause)) Fail("marks_mismatch_empty_clause_subscription", d + "; session " + U(cp->sid) + " has subscribed to a path with an empty clause");
-            for (auto & cp : conns) if ((cp)&&(cp->up)&&(exp[cp->sid] != got[cp->sid])&&((cp->everAliased)||(HasAliases(cp->serverSubs)))) Fail("marks_mismatch_aliased_subscriptions", d + "; session " + U(cp->sid) + " holds (or held) two spellings of one subscription path");
+            auto has = [](const std::map<uint32, uint32> & m, uint32 k) {return m.find(k) != m.end();};
+            for (auto & cp : conns) if ((cp)&&(cp->up)&&(has(exp, cp->sid) != has(got, cp->sid))&&(cp->everEmptyClause)) Fail("marks_mismatch_empty_clause_subscription", d + "; session " + U(cp->sid) + " has subscribed to a path with an empty clause");
+            for (auto & cp : conns) if ((cp)&&(cp->up)&&(has(exp, cp->sid) != has(got, cp->sid))&&((cp->everAliased)||(HasAliases(cp->serverSubs)))) Fail("marks_mismatch_aliased_subscriptions", d + "; session " + U(cp->sid) + " holds (or held) two spellings of one subscription path");
             Fail("marks_mismatch", d);
          } });
    }
